@@ -128,6 +128,15 @@ def shutdownConn (cfg4 : Cfg4) (x : World4) (a : Nat) : World4 :=
   let x := c.sessions.foldl (dropSession cfg4) x
   { x with w := { x.w with conns := x.w.conns.filter (·.1 ≠ a) } }
 
+/-- Session Report Response 'session context not found': the session is removed locally -/
+def reportContextNotFound (cfg4 : Cfg4) (x : World4) (a seid : Nat) : World4 :=
+  let c := x.w.conn a
+  match c.sessions.find? (·.lseid = seid) with
+  | none => x
+  | some s =>
+    let x := dropSession cfg4 x s
+    { x with w := x.w.setConn a { c with sessions := c.sessions.filter (·.lseid ≠ seid) } }
+
 /-! ## the image of the live sessions (C04) -/
 
 def live (x : World4) : List Session := x.w.conns.flatMap (·.2.sessions)
